@@ -27,6 +27,21 @@ CLAIMS = {
         "note": TB + " Not decided: 'exactly as before' as a behavioural equivalence over arbitrary call sequences.",
         "technique": "static analysis: lock critical-section / panic-site reachability, must-pass-through and control-dependence rules on MIR",
     },
+    "C01": {
+        "text": "Static order/ownership rules on both HalfLock<T> instantiations: free only after the completed reader barrier that follows the swap "
+                "(must-pass-through), reader count before pointer load (dominance), guard built from that pointer/slot and released exactly once, the "
+                "four store-buffering accesses SeqCst and the release >= Release (orderings invisible on x86), barrier reads the whole slot array, "
+                "who-may-free, no FREE leaf in the dispatch cone.",
+        "note": TB + " Not decided: correctness of the grace-period protocol as a whole; the barrier's value-level exit condition (all vs any, sticky).",
+        "technique": "static analysis: dominance / must-pass-through on MIR CFGs, atomic-ordering inventory vs litmus minima, who-may-call, effect reachability",
+    },
+    "C18": {
+        "text": "Static lock analysis: acquired-while-holding graph over the four locks is acyclic and the fallback lock is only taken under the data "
+                "lock; writer mutex acquisitions are poison-tolerant and other locks have no panic site inside critical sections; the read path has no "
+                "loop and no LOCK/WAIT leaf, the only wait loop is writer-side and polls only reader slots; reader increments are paired with decrements.",
+        "note": TB + " Not decided: termination of the barrier's value-level logic; scheduler fairness.",
+        "technique": "static analysis: lock-order graph, poison-tolerance idiom classification, loop/leaf rules over the call graph",
+    },
 }
 
 PENDING = "check under construction in this round (rules designed in DESIGN.md §4); not claimed until the rule set runs clean"
